@@ -69,6 +69,15 @@ func cloneValue(src interface{}, dst interface{}) {
 			cloneValue(srcVal.Index(i).Interface(), dstElem.Index(i).Addr().Interface())
 		}
 
+	case reflect.Array:
+		// an array is copied by value but its elements may hold pointers,
+		// slices or maps which must be cloned as well
+		arr := reflect.New(srcType).Elem()
+		for i := 0; i < srcVal.Len(); i++ {
+			cloneValue(srcVal.Index(i).Interface(), arr.Index(i).Addr().Interface())
+		}
+		dstVal.Elem().Set(arr)
+
 	case reflect.Map:
 		dstElem := dstVal.Elem()
 		dstElem.Set(reflect.MakeMap(srcType))
